@@ -12,12 +12,12 @@ import z3
 
 import black_it.utils.base as ub
 from harness.common import Case, f, objarr
-from symx.core import UF_RND, Sym
+from symx.core import UF_RND, Sym, SymFP, fp16_var
 from symx.npx import patched
 
 LEVEL = "other"
 FUNCTIONS = ["black_it.utils.base:get_closest", "black_it.utils.base:digitize_data"]
-NUMBER_MODEL = "R (exact reals) and R~ (reals + uninterpreted rounding of every subtraction with ground monotone/sign/odd axioms)"
+NUMBER_MODEL = "R (exact reals), R~ (reals + uninterpreted rounding of every subtraction with ground monotone/sign/odd axioms) and F16 (bit-precise IEEE half precision, grids of <= 2 (quick) / 3 (thorough) elements)"
 EXPLANATION = (
     "Bounded symbolic execution of the real get_closest/digitize_data: grid elements and values are z3 Reals "
     "(arbitrary strictly increasing grid, value anywhere), every path of numpy's searchsorted + the step-back rule is "
@@ -26,6 +26,7 @@ EXPLANATION = (
 )
 ASSUMPTIONS = [
     "grid strictly increasing (what np.arange with a positive step produces); non-finite values outside the claim",
+    "F16 cases are a reduced-width bound (half precision), not a binary64 claim",
     "R~: every floating subtraction is rnd(exact) with rnd monotone, sign-preserving and odd (true of IEEE-754 round-to-nearest without overflow); bit-precise binary64 is out of solver reach",
     "numpy searchsorted/fancy-indexing semantics are those of the installed numpy (it is executed, not modelled)",
 ]
@@ -107,6 +108,36 @@ def case_single(n, rounded):
         return bad, f"get_closest({g.tolist()}, [{v}]) -> {out.tolist()}: {why}"
 
     return Case(f"single-n{n}-{'Rt' if rounded else 'R'}", body, replay, time_budget=900)
+
+
+def case_f16(n):
+    """Bit-precise IEEE half precision: grid and value are z3 FloatingPoint(5,11) terms, every subtraction/abs/comparison of the
+    real get_closest is the IEEE operation. A reduced-WIDTH bound, not a binary64 claim."""
+
+    def body(ctx):
+        g = [fp16_var(ctx, f"g{i}") for i in range(n)]
+        for a, b in zip(g, g[1:]):
+            ctx.solver.add(z3.fpLT(a.t, b.t))
+        v = fp16_var(ctx, "v")
+        with patched(ub):
+            out = ub.get_closest(objarr(g), objarr([v]))
+        r = out[0]
+        ctx.prove(z3.Or(*[z3.fpEQ(r.t, x.t) for x in g]), "in_grid", f"F16 n={n}")
+        dr = z3.fpAbs(z3.fpSub(z3.RNE(), v.t, r.t))
+        ctx.prove(z3.And(*[z3.fpLEQ(dr, z3.fpAbs(z3.fpSub(z3.RNE(), v.t, x.t))) for x in g]), "nearest_as_computed", f"F16 n={n}: |v (-) r| <= |v (-) g_j| with IEEE half-precision subtraction")
+
+    def replay(cex):
+        g = np.array([np.float16(f(cex.values.get(f"g{i}"))) for i in range(n)], dtype=np.float16)
+        v = np.float16(f(cex.values.get("v")))
+        try:
+            out = ub.get_closest(g, np.array([v], dtype=np.float16))
+        except Exception as e:  # noqa: BLE001
+            return True, f"get_closest raised {type(e).__name__}: {e}"
+        r = out[0]
+        bad = not any(r == x for x in g) or any(abs(np.float16(v - x)) < abs(np.float16(v - r)) for x in g)
+        return bool(bad), f"float16: get_closest({g.tolist()}, [{float(v)}]) -> {float(r)}"
+
+    return Case(f"f16-n{n}", body, replay, time_budget=600, solver_timeout_ms=120000, witness_paths=0, cross_budget=0)
 
 
 def case_idem(n):
@@ -217,6 +248,8 @@ def cases(tier, seed):
         cs.append(case_single(n, True))
     for n in idem:
         cs.append(case_idem(n))
+    for n in ((1, 2) if tier == "quick" else (1, 2, 3)):
+        cs.append(case_f16(n))
     for shape, ns in dig:
         cs.append(case_digitize(shape, ns))
     return cs
